@@ -13,6 +13,7 @@ HDR = base.witness.HDR
 ASSUMPTIONS = [
     "source side: the decorated function is evaluated by ordinary Python (exec of its own source; HASH = independent signed CRC-32; enums from the statically extracted tables); the compiled output is compared with it on the symbolic IC10 machine for all device inputs",
     "closed: no label / instruction is attributable to a decorated function (instruction owners captured at the allocator call); bodies containing open / eval / exec are rejected",
+    "fixed families: HASH() inside a constexpr body on 20 unusual but legal strings (empty, quotes, HASH(\"..\") text, escapes, non-ASCII); 11 argument / result kinds that cross the process boundary (negative, bool, big, fractions, keyword-only, nested call arguments, enum members, math); these must compile",
     "family: seeded constexpr bodies (int / float arithmetic, shifts, or-ing bit fields, if/else, defaults and keyword arguments, HASH of a string argument, enum members, one constexpr calling another) x call positions (main statement, inside an expression with device reads, argument of a user function, body of a user function, library module, library constexpr called from main)",
     "the 1 s limit of the constexpr child process is lifted to 60 s by the harness (subprocess.Popen.communicate wrapped in the worker): timing is C10's subject, and under CPU load every evaluation would be inconclusive",
     "sequence scenarios: programs that differ only in a library constexpr body / a default value are compiled back to back in one process (the evaluation cache is process-global); each output is compared with ordinary Python evaluation of its own sources",
@@ -82,6 +83,41 @@ def gen_program(seed):
         main2 = main.replace(HDR, HDR + "from library import lib\n", 1) + f"d4.Setting = lib.{ces2[1][1]()}\nlib.apply(d0.On)\nlib.apply(2)\n"
         return {"": main2, "lib": "\n".join(lib_lines) + "\n"}, [n for n, _ in ces] + [n for n, _ in ces2]
     return main, [n for n, _ in ces]
+
+
+# strings a constexpr function may legally pass to HASH(): HASH is the plain signed CRC-32 of the text
+# (no unquoting, no unwrapping of HASH("..") text, no special empty string)
+SPECIAL_STRINGS = ["", '"', '"ItemIronOre"', 'HASH("ItemIronOre")', "a b", "#1", "it's", "x\\y", "\u00e9", " lead", "tab\tx", "{}", "%s", "a,b", "0",
+                   "__register.1_", 'STR("ab")', "'quoted'", "a\nb", "None"]
+
+# value kinds that cross the process boundary (arguments are re-serialised as source text, results as JSON)
+VALUE_KINDS = {
+    "neg": ("@constexpr\ndef neg(a):\n    return -a\n", ["neg(-7)", "neg(2.5)", "neg(0)", "neg(-0.125)"]),
+    "bool_result": ("@constexpr\ndef flag(a):\n    return a > 3\n", ["flag(5)", "flag(1)", "flag(7) + 2"]),
+    "bool_arg": ("@constexpr\ndef sel(c, a, b):\n    return a if c else b\n", ["sel(True, 4, 9)", "sel(False, 4, 9)", "sel(0, 4, 9)"]),
+    "big": ("@constexpr\ndef big(k):\n    return 2 ** 40 + k\n", ["big(1)", "big(-3)"]),
+    "fraction": ("@constexpr\ndef frac(a, b):\n    return a / b\n", ["frac(1, 3)", "frac(-2, 7)", "frac(1, 1024)", "frac(10, 4)"]),
+    "keyword_only": ("@constexpr\ndef kw(a, *, scale=2):\n    return a * scale\n", ["kw(3)", "kw(3, scale=5)"]),
+    "string_ops": ("@constexpr\ndef s2n(txt):\n    return len(txt) * 256 + ord(txt[0])\n", ["s2n('abc')", 's2n("x y")']),
+    "nested_arg": ("@constexpr\ndef inc(a):\n    return a + 1\n", ["inc(inc(3))", "inc(2 * 3 + 1)", "inc(-(4))", "inc(1 if 2 > 1 else 5)"]),
+    "enum_arg": ("@constexpr\ndef ev(e, k):\n    return e * 100 + k\n", ["ev(LogicType.Setting, 1)", "ev(SortingClass.Ores, 2)"]),
+    "small": ("@constexpr\ndef tiny(k):\n    return k / 1000000\n", ["tiny(5)", "tiny(-25)", "tiny(123456)"]),
+    "math": ("@constexpr\ndef m(a):\n    import math\n    return math.floor(a) + math.sqrt(16)\n", ["m(2.7)", "m(-2.7)"]),
+}
+
+
+def fixed_programs():
+    out = []
+    for i in range(0, len(SPECIAL_STRINGS), 2):
+        ss = SPECIAL_STRINGS[i:i + 2]
+        src = HDR + "@constexpr\ndef tag(txt, k=1):\n    return HASH(txt) << 8 | k\n\n@constexpr\ndef plain(txt):\n    return HASH(txt)\n\n"
+        for j, s_ in enumerate(ss):
+            src += f"d{j}.Setting = tag({s_!r})\nd{j + 2}.Setting = plain({s_!r}) + d5.Setting\nd{j}.Mode = tag({s_!r}, k=7)\n"
+        out.append((f"hash_string:{i}", src, ["tag", "plain"]))
+    for k, (fn, calls) in VALUE_KINDS.items():
+        src = HDR + fn + "\n" + "".join(f"d{i}.Setting = {c}\n" for i, c in enumerate(calls)) + "db.Setting = " + calls[0] + " + d5.On\n"
+        out.append((f"value_kind:{k}", src, [fn.split("def ")[1].split("(")[0]]))
+    return out
 
 
 WITNESS_LIB_INTERNAL = {
@@ -188,6 +224,8 @@ def run(tier: str) -> int:
         s = srcs if isinstance(srcs, str) else "\n".join(srcs.values())
         if "@constexpr" in s:
             items.append(dict(name=name, sources=srcs, tier=tier, strict=False, opts={}, ce_names=re.findall(r"@constexpr\s+def (\w+)", s), timeout=120))
+    for name, src, names in fixed_programs():
+        items.append(dict(name=name, sources=src, tier=tier, opts={}, ce_names=names, timeout=120, must_compile=True))
     items.append(dict(name="witness:lib_internal_call", sources=WITNESS_LIB_INTERNAL, tier=tier, opts={}, ce_names=["lc"], timeout=120))
     results = harness.pmap(task, items, nworkers=6)
     seq_items = [dict(name=f"seq:{k}", sequence=v, tier=tier) for k, v in sequence_scenarios().items()]
@@ -208,7 +246,7 @@ def run(tier: str) -> int:
         bad += r.get("leaks", [])
         if r["status"] == "load_error":
             bad.append("unloadable: " + r.get("detail", ""))
-        if spec["name"].startswith("witness:") and r["status"] == "compile_error":
+        if (spec["name"].startswith("witness:") or spec.get("must_compile")) and r["status"] == "compile_error":
             bad.append("rejected: " + r.get("detail", ""))
         for b in bad:
             k = next((x for x in known if x.get("program") == spec["name"]), None)
